@@ -284,10 +284,52 @@ def c06_r2(ctx):
         if rs['lhs'] != [0]:
             continue
         val = render(strip(sym.operand(rs['rv']['o'][0])))
-        ctx.inst('update|return Some', {'at': rs['at'], 'payload': val})
-        if 'front' not in val:
+        # the new frontier is whatever is stored into self.front in this call: the payload must be that value (the same local,
+        # through copies and tuple fields) or a read of self.front that happens AFTER the store
+        stores_f = [(wb, si, ws) for wb, si, fld, ws in q.self_writes(up, 'front')]
+        fronts = set()
+        for wb, si, ws in stores_f:
+            o_ = ws['rv'].get('o')
+            if ws['rv']['r'] == 'use' and o_ and o_[0] != 'k':
+                fronts.add(q.base_local(up, o_))
+
+        def after_store(b, i):
+            return any((wb == b and si < i) or (wb != b and up.dominates(wb, b)) for wb, si, _ in stores_f)
+
+        def origin(pl, pos, depth=0):
+            # -> 'new' | 'old' | 'other'
+            if depth > 8:
+                return 'other'
+            if self_field(pl) == 'front':
+                return 'new' if after_store(*pos) else 'old'
+            loc = pl[0]
+            if loc in fronts:
+                return 'new'
+            d = up.single_def(loc)
+            if d is None or d[1] == 'T':
+                return 'other'
+            node = up.def_node(d)
+            rv = node['rv']
+            if rv['r'] in ('use', 'cast') and rv['o'][0] != 'k':
+                return origin(rv['o'][1] + pl[1:], d, depth + 1)
+            if rv['r'] == 'ref':
+                rest = pl[1:]
+                if rest and rest[0] == '*':
+                    rest = rest[1:]
+                return origin(rv['p'] + rest, d, depth + 1)
+            if rv['r'] == 'agg' and rv['k'] == 'tuple' and len(pl) > 1 and isinstance(pl[1], list) and pl[1][0] == 'f':
+                o2 = rv['o'][pl[1][1]]
+                if o2[0] == 'k':
+                    return 'other'
+                return origin(o2[1] + pl[2:], d, depth + 1)
+            return 'other'
+        pay = rs['rv']['o'][0]
+        org = origin(pay[1], (rb, len(up.blocks[rb]['s']))) if pay[0] != 'k' else 'other'
+        ctx.inst('update|return Some', {'at': rs['at'], 'payload': val, 'origin': org})
+        if org != 'new':
             ctx.viol('%s|returns-other' % up.path, rs['at'],
-                     'WatermarkFrontier::update returns Some(%s): only the newly computed frontier may be announced' % val, None)
+                     'WatermarkFrontier::update returns Some(%s) (%s): only the newly computed frontier may be announced'
+                     % (val, 'the frontier as it was before this update' if org == 'old' else 'not the value stored in self.front'), None)
 
 
 @rule('C10', 'R4', 'after an iteration ends, Start lets no element of the next iteration pass before the new loop state is installed')
